@@ -192,7 +192,7 @@ func genHelpNode(r *rand.Rand, name string, depth int, parent *hNode, version bo
 	if r.Intn(2) == 0 {
 		n.longDesc = "LONG description\nof " + name
 	}
-	names := []string{"a", "b", "c", "d", "e", "long1", "long2", "l3", "x-y", "f", "Z", "zz"}
+	names := []string{"a", "b", "c", "d", "e", "long1", "long2", "l3", "x-y", "f", "Z", "zz", "g", "i", "j", "k", "l", "m", "n", "o", "p", "q", "r", "long-name-4", "ln5", "s", "t", "u", "another_long-one", "w", "y"}
 	r.Shuffle(len(names), func(i, j int) { names[i], names[j] = names[j], names[i] })
 	var decls []func(c *cli.Cmd)
 	if version && parent == nil {
@@ -200,8 +200,18 @@ func genHelpNode(r *rand.Rand, name string, depth int, parent *hNode, version bo
 	}
 	ni := 0
 	no := r.Intn(5)
-	for k := 0; k < no && ni+3 < len(names); k++ {
+	many := r.Intn(12) == 0
+	if many {
+		no = 9 + r.Intn(3) // more than eight options
+	}
+	for k := 0; k < no && ni+5 < len(names); k++ {
 		cnt := 1 + r.Intn(3)
+		if !many && r.Intn(10) == 0 {
+			cnt = 4 + r.Intn(2) // an option with four or five names
+		}
+		if many {
+			cnt = 1 + r.Intn(2)
+		}
 		nm := append([]string{}, names[ni:ni+cnt]...)
 		ni += cnt
 		d := hDescs[r.Intn(len(hDescs))]
